@@ -63,7 +63,7 @@ func (k msgServer) depositForBurn(
 		return 0, errors.Wrapf(types.ErrInvalidAddress, "invalid from address (%s)", err)
 	}
 
-	if !amount.IsPositive() {
+	if amount.IsNil() || !amount.IsPositive() {
 		return 0, errors.Wrap(types.ErrDepositForBurn, "amount must be positive")
 	}
 
